@@ -15,14 +15,16 @@ use std::sync::atomic::{AtomicBool, Ordering};
 use std::sync::{Arc, Mutex};
 use std::time::{Duration, Instant};
 
-const T_MS: u64 = 150;
+// connect, read and write timeouts are all different (a swap must show): connect 200 ms, read 150 ms, write: none
+// (block indefinitely; a loopback write never blocks). The bound uses the largest finite one.
+const T_MS: u64 = 200;
+const READ_MS: u64 = 150;
 const SLACK_MS: u64 = 2000;
 
 fn loopback(ipv: u64) -> IpAddr { if ipv == 6 { "::1".parse().unwrap() } else { "127.0.0.1".parse().unwrap() } }
 
 fn settings(r: usize) -> Option<TimeoutSettings> {
-    let t = Some(Duration::from_millis(T_MS));
-    Some(TimeoutSettings::new(t, t, t, r).unwrap())
+    Some(TimeoutSettings::new(Some(Duration::from_millis(READ_MS)), None, Some(Duration::from_millis(T_MS)), r).unwrap())
 }
 
 fn call_real(p: &str, a: &SocketAddr, r: usize) -> Result<Value, String> {
